@@ -66,6 +66,7 @@ PRELUDE = """(define-fun rmin ((a Real) (b Real)) Real (ite (<= a b) a b))
 (define-fun rtrunc ((a Real)) Real (ite (>= a 0.0) (rfloor a) (rceil a)))
 (define-fun rround ((a Real)) Real (ite (>= a 0.0) (rfloor (+ a 0.5)) (rceil (- a 0.5))))
 (define-fun near ((a Real) (b Real) (tol Real)) Bool (and (<= (- a b) tol) (<= (- b a) tol)))
+(define-fun reuclid ((x Real) (n Real)) Real (- x (* (rabs n) (rfloor (/ x (rabs n))))))
 (declare-fun fadd (Real Real) Real)
 (declare-fun fsub (Real Real) Real)
 (declare-fun fmul (Real Real) Real)
@@ -613,7 +614,9 @@ class Normalizer:
             return name
         elif op == "app":
             args = [self.term(int(x)) for x in a[1:]]
-            if len(args) == 1:
+            if a[0] == "signum" and len(args) == 1:
+                d = f"(ite (>= {args[0]} 0.0) 1.0 (- 1.0))"     # f32::signum away from NaN
+            elif len(args) == 1:
                 d = f"(fun1 {app_id(a[0])} {args[0]})"
             elif len(args) == 2:
                 d = f"(fun2 {app_id(a[0])} {args[0]} {args[1]})"
